@@ -140,6 +140,9 @@ func (e *FieldExpression) Evaluate(ctx *Context, input system.Collection) (syste
 			// is normalized here, since the FHIR spec models these types as strings
 			// with a "value" field.
 			if fieldName == "value" {
+				if hasNoValue(message) {
+					continue // a date/time primitive that carries only extensions has no value either
+				}
 				switch v := message.(type) {
 				case *dtpb.Date:
 					output = append(output, system.String(fhirconv.DateToString(v)))
